@@ -161,7 +161,7 @@ func (w *world) check(t *rapid.T, trace string, sub *stats.Sub) {
 			var wantCA *x509.Certificate
 			if want != "" {
 				ss := w.applied[want].Spec.SecureServing
-				for _, m := range pki.Pool(5) {
+				for _, m := range pki.WithRenewals(3) {
 					if len(ss.CertData) > 0 && bytes.Equal(ss.CertData, m.CertPEM) {
 						wantCert = certOf(m)
 					}
@@ -202,7 +202,7 @@ func (w *world) check(t *rapid.T, trace string, sub *stats.Sub) {
 
 func TestPropNameOwnership(t *testing.T) {
 	sub := stats.NewSub("name-ownership-histories", "rapid state machine on the real controller: ops create/update a cluster (valid object; server names drawn from a pool with case variants; two in three not claimed by another object, one in three free to collide with names another cluster holds, including an object NAMED like another cluster's server name), delete, duplicate delivery (the event may carry a superseded version of the object; also of the delete event of a vanished or refused object); model: a delivery whose latest object claims a name held by another cluster is refused and changes nothing, any other delivery makes the latest object the served one; during every update two readers look up the names the cluster keeps (they must resolve to it at every moment); after every event, for every name of the pool x {as is, upper case, with port}: Manager.Get(HostWithoutPort(h)), the tls.Config for a ClientHello with that SNI (certificate, client-CA subjects) and SNIVerifyOptions must be those of the model's owner or nobody's (a name listed only by the refused or only by the still-served version of a cluster may resolve to it or to nobody); non-trivial = the history moves an alias between clusters, reuses a name after a delete, has a name owned under a different case than looked up, or has a refused object; distinct by FNV-64 of the op trace")
-	mats := pki.Pool(5)
+	mats := pki.WithRenewals(3) // three key pairs, each with a renewed certificate for the same key
 	stats.Check(t, stats.N(1500, 8000), func(t *rapid.T) {
 		w := &world{box: ctlbox.New(), api: map[string]*proxyv1alpha1.UpstreamCluster{}, applied: map[string]*proxyv1alpha1.UpstreamCluster{}}
 		defer w.box.Close()
